@@ -194,8 +194,11 @@ impl<U: View, V: View> Prune for Modulo<U, V> {
                         let k_min_theoretical = (x_curr_min - s_val) / y_val;
                         let k_max_theoretical = (x_curr_max - s_val) / y_val;
                         
-                        // Try a range around these theoretical k values
-                        for k in (k_min_theoretical - 1)..=(k_max_theoretical + 1) {
+                        // Try a range around these theoretical k values (they are in reverse
+                        // order for a negative divisor)
+                        let k_lo = k_min_theoretical.min(k_max_theoretical);
+                        let k_hi = k_min_theoretical.max(k_max_theoretical);
+                        for k in (k_lo - 1)..=(k_hi + 1) {
                             let candidate_x = k * y_val + s_val;
                             if candidate_x >= x_curr_min && candidate_x <= x_curr_max {
                                 valid_x_values.push(Val::ValI(candidate_x));
